@@ -84,7 +84,10 @@ extern void *mpt_array_slice(MPT_STRUCT(array) *arr, size_t off, size_t len)
 		if (traits && (init = traits->init)) {
 			size_t pos, adv = traits->size;
 			for (pos = 0; pos < missing; pos += adv) {
-				init(ptr + pos, 0);
+				if (init(ptr + pos, 0) < 0) {
+					buf->_used = used + pos;
+					return 0;
+				}
 			}
 		}
 		else {
